@@ -29,6 +29,7 @@ ANY_ARROW_TEXT = r"(-?|\w+-)"
 NON_EMPTY_STRING = ".+"
 COMPONENT_MARKER = "component"
 NON_EMPTY_WHITESPACE = r"\s+"
+OPTIONAL_BLANKS = r"[ \t]*"
 NON_EMPTY_CHAR_OR_DIGIT = r"(\w|\d|\.)+"
 NON_EMPTY_CHAR_OR_DIGIT_OR_WHITESPACE = r"(\w|\d|\.|\s)+"
 START_LINE = "^"
@@ -158,8 +159,9 @@ class PumlParser(DiagramParser):
         arrow_to_right = f"{ARROW_BODY}{ANY_ARROW_TEXT}{ARROW_HEAD_RIGHT}"
         arrow_to_left = f"{ARROW_HEAD_LEFT}{ARROW_BODY}{ANY_ARROW_TEXT}"
 
-        dependor_depends_on_dependee = f"({dependor_left_hand}{NON_EMPTY_WHITESPACE}{arrow_to_right}{NON_EMPTY_WHITESPACE}{dependee_right_hand})"
-        dependee_depended_on_by_dependor = f"{dependee_left_hand}{NON_EMPTY_WHITESPACE}{arrow_to_left}{NON_EMPTY_WHITESPACE}{dependor_right_hand}"
+        # blanks around the arrow are optional: component names contain neither '-' nor '<' nor '>'
+        dependor_depends_on_dependee = f"({dependor_left_hand}{OPTIONAL_BLANKS}{arrow_to_right}{OPTIONAL_BLANKS}{dependee_right_hand})"
+        dependee_depended_on_by_dependor = f"{dependee_left_hand}{OPTIONAL_BLANKS}{arrow_to_left}{OPTIONAL_BLANKS}{dependor_right_hand}"
 
         dependency_regex = rf"{START_LINE}{dependor_depends_on_dependee}|{dependee_depended_on_by_dependor}{END_LINE}"
         pattern = re.compile(dependency_regex, re.MULTILINE)
